@@ -18,7 +18,8 @@ LEVEL_NOTE = "Trusted: Coq kernel for the theorems; harness, GPOS interpreter, f
 TECHNIQUE = "Coq theorems on per-source kerning and variable scalars at master locations + instantiation of compiled variable fonts at every master location"
 RULE = ("families of 2-3 compatible masters on one axis (plus 4-corner two-axis families), kerning that differs per master incl. "
         "pairs present in one master only, top/_top anchors, x {compileVariableTTF, compileVariableCFF2} x variableFeatures "
-        "{True, False} x both UFO libraries. Non-trivial = every (family, function, master) triple.")
+        "{True, False} x both UFO libraries. Non-trivial = every (family, function, master) triple."
+        " Class kerning with 0 in one master, several variable fonts per document (one from a non-prefix subset of the sources), one 2x2 entry differing between masters, kernFeatureWriter2, anchors added by a lib filter (F14).")
 F14_SIG = "variable-features-anchor-added-by-filter"
 ASSUMPTIONS = ["fontTools.varLib.instancer.instantiateVariableFont evaluates the variation data as a renderer would"]
 
